@@ -769,6 +769,9 @@ fn math_pow(rep: &mut Rep, x: &CelValue, y: &CelValue) {
                     // results in the subnormal range may underflow to zero (repeated multiplication
                     // overflows / underflows on the way); gradual underflow is not demanded
                     want.abs() < f64::MIN_POSITIVE && *g == 0.0
+                } || {
+                    // x^0 is 1 for every x, NaN included; libm answers NaN only for a signalling NaN base: both are accepted
+                    b.is_nan() && *g == 1.0 && matches!(y, CelValue::Int(0) | CelValue::UInt(0)) || matches!(y, CelValue::Float(e) if b.is_nan() && *e == 0.0 && *g == 1.0)
                 },
                 _ => false,
             };
